@@ -42,6 +42,7 @@ type mgrCase struct {
 	Closers   []closerSpec
 	Grace     string // none | generous | short
 	ParentAt  int    // x100ms, 0 = parent never cancelled
+	ParentPre bool   // the parent context has ALREADY ended when Run is called (cancelled, or its deadline has passed, with ParentDL)
 	ParentDL  bool   // the parent context ends by its DEADLINE at ParentAt (context.DeadlineExceeded) instead of being cancelled
 	Closes    []int  // Close() call times: -1 = before Run, else x100ms after Run started
 	LateAddAt int    // x100ms+50 after Run started: Add(runner) (0 = none)
@@ -181,6 +182,13 @@ func runMgr(t *testing.T, c mgrCase) (nontrivial bool, classes []string, err err
 		if c.ParentDL && c.ParentAt > 0 {
 			parent, cancelParent = context.WithDeadline(context.Background(), time.Now().Add(time.Duration(c.ParentAt)*100*ms))
 		}
+		if c.ParentPre {
+			if c.ParentDL {
+				parent, cancelParent = context.WithDeadline(context.Background(), time.Now().Add(-time.Second))
+			} else {
+				cancelParent()
+			}
+		}
 		defer cancelParent()
 
 		// ---- expected times
@@ -210,6 +218,9 @@ func runMgr(t *testing.T, c mgrCase) (nontrivial bool, classes []string, err err
 		}
 		if c.ParentAt > 0 {
 			consider(time.Duration(c.ParentAt) * 100 * ms)
+		}
+		if c.ParentPre {
+			consider(0)
 		}
 		if c.Closer && len(c.Runners) > 0 && closeAt >= 0 {
 			consider(time.Duration(closeAt) * 100 * ms)
@@ -644,7 +655,10 @@ func genCase(rt *rapid.T) mgrCase {
 	if !terminates {
 		c.ParentAt = slots[5]
 	}
-	if c.ParentAt > 0 && rapid.IntRange(0, 2).Draw(rt, "parentDeadline") == 0 {
+	if rapid.IntRange(0, 7).Draw(rt, "parentAlreadyEnded") == 0 {
+		c.ParentPre = true
+	}
+	if (c.ParentAt > 0 || c.ParentPre) && rapid.IntRange(0, 2).Draw(rt, "parentDeadline") == 0 {
 		c.ParentDL = true
 		for i := range c.Runners {
 			if c.Runners[i].Result == "ctxerr" {
@@ -665,6 +679,9 @@ func TestManagers(t *testing.T) {
 		}
 		if c.ParentDL {
 			cls = append(cls, "parent-context-ends-by-deadline")
+		}
+		if c.ParentPre {
+			cls = append(cls, "parent-context-already-ended-at-Run")
 		}
 		if c.AddBefore > 0 {
 			cls = append(cls, "runners.some-via-Add")
